@@ -35,6 +35,18 @@ def out(ch, *reads, tag=0):
     return {'op': 'out', 'args': list(reads), 'ch': ch, 'rc': tag}
 
 
+def redo_(*a, ignore=False):
+    return {'op': 'redo', 'args': list(a), 'ch': 'ignore' if ignore else '', 'rc': 0}
+
+
+def touch(f):
+    return {'op': 'touch', 'args': [f], 'ch': '', 'rc': 0}
+
+
+def failif(f, rc):
+    return {'op': 'failif', 'args': [f], 'ch': '', 'rc': rc}
+
+
 def exit_(rc):
     return {'op': 'exit', 'args': [], 'ch': '', 'rc': rc}
 
@@ -398,6 +410,41 @@ def fail_diamond():
     }
 
 
+def fan_shared():
+    """one regenerated file with three dependents requested on one command line (the per-run "already checked" memo
+    is consulted for the second and third dependent)"""
+    return {
+        'name': 'fan_shared',
+        'plain': ['s', 'd', 'p1', 'p2', 'p3'],
+        'rules': {'d.do': [{'d': [ifchange('s'), out('stdout', 's')]}],
+                  'p1.do': [{'p1': [ifchange('d'), out('stdout', 'd')]}],
+                  'p2.do': [{'p2': [ifchange('d'), out('file', 'd')]}],
+                  'p3.do': [{'p3': [ifchange('d'), out('stdout', 'd')]}]},
+        'init': ['s', 'd.do', 'p1.do', 'p2.do', 'p3.do'],
+        'cmds': [('ifchange', ['p1', 'p2', 'p3'], False), ('redo', ['d'], False), ('ifchange', ['p3', 'p1'], False)],
+        'user': ['s'], 'rm': [], 'doedits': [],
+        'bounds': (5, 4),
+    }
+
+
+def fail_memo():
+    """a target that is checked clean, then fails a forced rebuild, then is needed by another dependent, all inside one
+    run (one script calling redo-ifchange, redo ... || true, redo-ifchange)"""
+    return {
+        'name': 'fail_memo',
+        'plain': ['s', 's2', 'x', 'a', 'b', 'all', 'trip'],
+        'rules': {'x.do': [{'x': [ifchange('s'), failif('trip', 7), out('stdout', 's')]}],
+                  'a.do': [{'a': [ifchange('x', 's2'), out('stdout', 'x', 's2')]}],
+                  'b.do': [{'b': [ifchange('x'), out('file', 'x')]}],
+                  'all.do': [{'all': [ifchange('a', 'b'), out('stdout', 'a', 'b')]},
+                             {'all': [ifchange('a'), touch('trip'), redo_('x', ignore=True), ifchange('b'), out('stdout', 'a', 'b')]}]},
+        'init': ['s', 's2', 'x.do', 'a.do', 'b.do', 'all.do'],
+        'cmds': [('ifchange', ['all'], False)],
+        'user': ['s2'], 'rm': ['trip'], 'doedits': ['all.do'],
+        'bounds': (5, 3),
+    }
+
+
 def subdirs():
     """targets in a subdirectory: a specific rule beside the target that refers to ../s, the top-level default.do
     building into the subdirectory, and a sub/default.do that can be added (takes over) and removed again"""
@@ -495,9 +542,26 @@ def par_unlocked():
     }
 
 
+def par_window():
+    """x is requested directly by top and, through a longer path (top -> c -> b -> x), checked by b while x's script is
+    already running but has not yet re-declared its dependencies"""
+    return {
+        'name': 'par_window',
+        'plain': ['s', 'x', 'b', 'c', 'top'],
+        'rules': {'x.do': [{'x': [ifchange('s'), out('stdout', 's')]}],
+                  'b.do': [{'b': [ifchange('x'), out('file', 'x')]}],
+                  'c.do': [{'c': [ifchange('b'), out('stdout', 'b')]}],
+                  'top.do': [{'top': [ifchange('x', 'c'), out('stdout', 'x', 'c')]}]},
+        'init': ['s', 'x.do', 'b.do', 'c.do', 'top.do'],
+        'cmds': [('redo', ['top'], False, 2)],
+        'user': ['s'], 'rm': [], 'doedits': [],
+        'bounds': (3, 2),
+    }
+
+
 def parallel_family():
     return [complete(p) for p in [par_diamond(2), par_fan(3), par_shared('stamp'), par_shared('always'), par_fail(),
-                                  par_unlocked()]]
+                                  par_unlocked(), par_window()]]
 
 
 # dependency cycles ---------------------------------------------------------------------------
@@ -556,7 +620,7 @@ def crash_family(window=False, stamp_window=False):
     return out_
 
 
-FAMILY_DEEP = [fail_diamond, override2, stamp_toggle, stamped_deep, ifcreate_deep, do_recreate, subdirs]
+FAMILY_DEEP = [fail_diamond, override2, stamp_toggle, stamped_deep, ifcreate_deep, do_recreate, subdirs, fan_shared, fail_memo]
 
 
 def deep_programs():
